@@ -5,6 +5,7 @@ import warnings
 import torch
 
 from linear_operator import settings
+from linear_operator.utils import _verif
 from linear_operator.utils.deprecation import bool_compat
 from linear_operator.utils.warnings import NumericalWarning
 
@@ -241,6 +242,13 @@ def linear_cg(
     # It's conceivable we reach the tolerance on the last iteration, so can't just check iteration number.
     tolerance_reached = False
 
+    if _verif.ENABLED:
+        _verif.emit(
+            "cg.begin", rhs=rhs, rhs_norm=rhs_norm, rhs_is_zero=rhs_is_zero, result=result, residual=residual,
+            n_iter=n_iter, max_iter=max_iter, n_tridiag=n_tridiag, n_tridiag_iter=n_tridiag_iter, tolerance=tolerance,
+            precond=precond, stop_updating_after=stop_updating_after, eps=eps,
+        )
+
     # Start the iteration
     for k in range(n_iter):
         # Get next alpha
@@ -299,6 +307,12 @@ def linear_cg(
         residual_norm.masked_fill_(rhs_is_zero, 0)
         torch.lt(residual_norm, stop_updating_after, out=has_converged)
 
+        if _verif.ENABLED:
+            _verif.emit(
+                "cg.iter", k=k, result=result, residual=residual, residual_norm=residual_norm,
+                has_converged=has_converged, alpha=alpha, beta=beta,
+            )
+
         if (
             k >= min(10, max_iter - 1)
             and bool(residual_norm.mean() < tolerance)
@@ -330,6 +344,9 @@ def linear_cg(
 
             prev_alpha_reciprocal.copy_(alpha_reciprocal)
             prev_beta.copy_(beta_tridiag)
+
+    if _verif.ENABLED:
+        _verif.emit("cg.end", tolerance_reached=tolerance_reached, n_iter=n_iter, last_tridiag_iter=last_tridiag_iter)
 
     # Un-normalize
     result = result.mul(rhs_norm)
